@@ -246,7 +246,8 @@ pub fn run(mode: Mode) -> i32 {
                 }
             }
             Mode::Ranges => {
-                let q = ranges_on_archive(&rep, &path, case, th);
+                let mut q = ranges_on_archive(&rep, &path, case, th);
+                if n % 97 == 11 { q += cli_ranges(&rep, case, &dir); }
                 queries.fetch_add(q, Ordering::Relaxed);
                 if q > 0 { nontrivial.fetch_add(1, Ordering::Relaxed); }
             }
@@ -380,6 +381,83 @@ fn ranges_on_archive(rep: &Report, path: &str, case: &Case, thorough: bool) -> u
     if let Err(p) = r {
         rep.violation(&format!("C07:panic:{}", short_loc(&last_panic_loc())), "range/length query panicked", det(json!({"panic": p})));
     }
+    // the same contig NAME queried in consecutive samples on one handle (a per-name cache must not leak)
+    let r2 = guarded(|| {
+        let samples = d.list_samples();
+        for name in ["chrA", "chrB desc field", "c"] {
+            for round in 0..2 {
+                for s in samples.iter() {
+                    let Ok(full) = d.get_contig(s, name) else { continue };
+                    let len = full.len();
+                    for (a, b) in [(0usize, len), (len / 3, 2 * len / 3 + round), (len.saturating_sub(9), len + 3), (case.cfg.k, case.cfg.k * 3)] {
+                        q += 1;
+                        let want: &[u8] = if a >= b || a >= len { &[] } else { &full[a..b.min(len)] };
+                        match d.get_contig_range(s, name, a, b) {
+                            Ok(got) if got == want => {}
+                            Ok(got) => rep.violation("C07:range_differs", "get_contig_range differs from the slice of the fully extracted contig (same contig name queried in consecutive samples)", det(json!({"sample": s, "contig": name, "start": a, "end": b, "want_len": want.len(), "got_len": got.len()}))),
+                            Err(e) => rep.violation("C07:range_error", "get_contig_range failed", det(json!({"sample": s, "contig": name, "error": e.to_string()}))),
+                        }
+                    }
+                }
+            }
+        }
+    });
+    if let Err(p) = r2 {
+        rep.violation(&format!("C07:panic:{}", short_loc(&last_panic_loc())), "range query panicked", det(json!({"panic": p})));
+    }
+    q
+}
+
+/// C07 through the real CLI: ragc getrange / ctglen on FASTA input written by the harness
+fn cli_ranges(rep: &Report, case: &Case, dir: &std::path::Path) -> u64 {
+    let ragc = crate::cli::ragc_bin(false);
+    if !std::path::Path::new(&ragc).exists() || case.cfg.single_file { return 0; }
+    let d = dir.join(format!("clir-{}", case.id));
+    let _ = std::fs::create_dir_all(&d);
+    let mut inputs = Vec::new();
+    for (i, s) in case.samples.iter().enumerate() {
+        let r: Vec<(String, Vec<u8>)> = s.1.iter().filter(|c| !c.1.is_empty()).map(|c| (format!("{}#{}", s.0, c.0), c.1.clone())).collect();
+        if r.is_empty() { continue; }
+        crate::cli::write_fasta(&d.join(format!("in{i}.fa")), &r, 61);
+        inputs.push(format!("in{i}.fa"));
+    }
+    let (k, sg, mm) = (case.cfg.k.to_string(), case.cfg.segment_size.to_string(), case.cfg.min_match.to_string());
+    let mut a: Vec<&str> = vec!["create", "-o", "out.agc", "-k", &k, "-s", &sg, "-m", &mm, "-t", "2", "-v", "0"];
+    for f in &inputs { a.push(f); }
+    let o = crate::cli::run(&ragc, &a, &d, &[("RAGC_VERIF_ZSTD_CAP", "3")], 180, None);
+    let mut q = 0u64;
+    if o.ok() {
+        for s in case.samples.iter().take(3) {
+            for c in s.1.iter().filter(|c| !c.1.is_empty()).take(2) {
+                let name = format!("{}#{}", s.0, c.0);
+                let len = c.1.len();
+                let letters: Vec<u8> = c.1.iter().map(|&b| b"ACGTNRYSWKMBDHVU"[b as usize]).collect();
+                let l = crate::cli::run(&ragc, &["ctglen", "out.agc", "-s", &s.0, "-c", &name], &d, &[], 120, None);
+                q += 1;
+                if !l.ok() || String::from_utf8_lossy(&l.stdout).trim() != len.to_string() {
+                    rep.violation("C07:cli_ctglen", "ragc ctglen differs from the contig length", json!({"case": case.id, "sample": s.0, "contig": name, "want": len, "got": String::from_utf8_lossy(&l.stdout).trim(), "exit": l.code}));
+                }
+                let k = case.cfg.k;
+                let mut pairs: Vec<(usize, Option<usize>)> = vec![(0, Some(0)), (0, Some(len)), (0, None), (len / 2, None), (len / 2, Some(0)), (5, Some(5)), (7, Some(3)), (len, Some(len + 5)), (len + 2, None), (len.saturating_sub(1), Some(len + 100)), (k, Some(3 * k)), (len / 3, Some(2 * len / 3))];
+                pairs.push((len / 2, Some(len / 2 + 1)));
+                for (st, en) in pairs {
+                    let sts = st.to_string();
+                    let ens = en.map(|e| e.to_string());
+                    let mut ar: Vec<&str> = vec!["getrange", "out.agc", "-s", &s.0, "-c", &name, "--start", &sts, "-f", "raw"];
+                    if let Some(e) = &ens { ar.push("--end"); ar.push(e); }
+                    let g = crate::cli::run(&ragc, &ar, &d, &[], 120, None);
+                    q += 1;
+                    let e = en.unwrap_or(len).min(len);
+                    let want: &[u8] = if st >= e { &[] } else { &letters[st..e] };
+                    let got = String::from_utf8_lossy(&g.stdout).trim().as_bytes().to_vec();
+                    if !g.ok() || got != want {
+                        rep.violation("C07:cli_getrange", "ragc getrange differs from the slice of the contig", json!({"case": case.id, "sample": s.0, "contig": name, "start": st, "end": en, "len": len, "want_len": want.len(), "got_len": got.len(), "exit": g.code}));
+                    }
+                }
+            }
+        }
+    }
+    let _ = std::fs::remove_dir_all(&d);
     q
 }
 
